@@ -169,6 +169,11 @@ KINDS = {
 
 def type_sym(ctx: Ctx, kind: str, **attrs: Any) -> Sym:
     s = Sym(_isa_=isa_of(ctx, KINDS[kind]), _kind_=kind, **attrs)
+    if "bit_length_set" not in attrs:
+        # the length set of the type: an unknown set (its min / max are abstract integers, not the length of a value)
+        from .layout import TBls
+
+        s.bit_length_set = TBls.var(str(attrs.get("full_name") or attrs.get("name") or kind), int(attrs.get("alignment_requirement", 1) or 1))
     return s
 
 
